@@ -19,9 +19,14 @@ PID = "C08"
 NAN = float("nan")
 
 
-def _clf(d, table, gen=7, K=2, validate=False):
+def _clf(d, table, gen=7, K=2, validate=False, partial=False):
+    if partial and not d.sym:
+        # replay: a real incremental learner (what the model becomes depends on every batch it has absorbed)
+        from sklearn.naive_bayes import GaussianNB
+        from skactiveml.classifier import SklearnClassifier
+        return SklearnClassifier(GaussianNB(), classes=list(range(K)))
     if d.sym:
-        c = models.StubClassifier(classes=list(range(K)), n_classes=K, gen=gen, validate=validate)
+        c = models.StubClassifier(classes=list(range(K)), n_classes=K, gen=gen, validate=validate, partial=partial)
     else:
         c = models.real_table_classifier([(row, p) for g, row, p in (table or []) if validate or g == gen], n_classes=K, validate=validate)
     c.classes_ = np.arange(K)
@@ -57,6 +62,15 @@ def _call(d, name, seed, X, y, cand):
         inner = P.UncertaintySampling(method="margin_sampling", random_state=seed)
         w = P.SubSamplingWrapper(query_strategy=inner, max_candidates=10, exclude_non_subsample=name.endswith("[exclude]"), random_state=seed)
         return w.query(X, y, clf=_clf(d, table), fit_clf=False, candidates=cand, batch_size=1, return_utilities=True)
+    if name.startswith("ContrastiveAL"):
+        # (two neighbours among the labeled samples: the number of candidates must not enter the neighbourhood size)
+        return P.ContrastiveAL(random_state=seed, nearest_neighbors_dict={"n_neighbors": 2}).query(
+            X, y, _clf(d, table), fit_clf=False, candidates=cand, batch_size=1, return_utilities=True)
+    if name == "ValueOfInformationEER[partial_fit]":
+        # an incremental learner whose own partial_fit is used for the simulated labels (ignore_partial_fit=False)
+        return P.ValueOfInformationEER(random_state=seed).query(
+            X, y, _clf(d, table, validate=True, partial=True), fit_clf=True, ignore_partial_fit=False, candidates=cand,
+            batch_size=1, return_utilities=True)
     if name in ("ValueOfInformationEER", "MonteCarloEER"):
         K = getattr(P, name)
         return K(random_state=seed).query(X, y, _clf(d, table, validate=True), fit_clf=True, candidates=cand, batch_size=1, return_utilities=True)
@@ -67,8 +81,9 @@ SPEC = {  # name: (independent scorer, supports feature-row candidates)
     "RandomSampling": (True, True), "UncertaintySampling[least_confident]": (True, True),
     "UncertaintySampling[margin_sampling]": (True, True), "UncertaintySampling[entropy]": (True, True),
     "QueryByCommittee": (True, True), "CoreSet": (False, True), "GreedySamplingX": (False, True), "Quire": (False, False),
-    "ValueOfInformationEER": (False, False), "MonteCarloEER": (False, False),
+    "ValueOfInformationEER": (False, False), "MonteCarloEER": (False, False), "ValueOfInformationEER[partial_fit]": (False, False),
     "SubSamplingWrapper": (True, True), "SubSamplingWrapper[exclude]": (True, False),
+    "ContrastiveAL[n_neighbors=2]": (True, True),
 }
 
 
@@ -182,16 +197,20 @@ def _cfg_quire(tier):
 def _cfg_eer(tier):
     # (MonteCarloEER's misclassification loss forks on the maximum of every predicted row for every simulated label: its
     #  exploration does not finish within 20 minutes for n = 3 and is left out)
-    return [dict(name="ValueOfInformationEER", n=n) for n in ((3,) if tier == "quick" else (3, 4))]
+    return [dict(name="ValueOfInformationEER", n=n) for n in ((3,) if tier == "quick" else (3, 4))] + \
+        [dict(name="ValueOfInformationEER[partial_fit]", n=3)]
 
 
 def _cfg_rep(tier):
     out = []
     for name in SPEC:
-        if name in ("Quire", "ValueOfInformationEER", "MonteCarloEER"):
+        if name in ("Quire", "ValueOfInformationEER", "MonteCarloEER", "ValueOfInformationEER[partial_fit]"):
             continue
         if name.startswith("SubSamplingWrapper") and tier != "quick":
             out.append(dict(name=name, n=3))
+            continue
+        if name.startswith("ContrastiveAL"):
+            out.append(dict(name=name, n=4))      # two labeled neighbours and a candidate subset of size one need four samples
             continue
         for n in ((3,) if tier == "quick" else (3, 4)):
             if name == "Quire" and n > 3:
